@@ -13,17 +13,17 @@ Import ListNotations.
 
 Definition cfg (n : nat) (w : work) (wc : Z) : list Z := [Z.of_nat n; w_v w; w_cnt w; w_mark w; wc].
 
-Lemma step_sim p m j c n w wc inp : sim p m (S j) c n wc ->
+Lemma step_sim p m (ok : cinp -> Prop) j c n w wc inp : ok (in_bits inp) -> sim p m ok (S j) c n wc ->
   exists c' n' w' wc',
     ref_step p (rpack (c, w)) inp = (rpack (c', w'), mobs w') /\
     mstepZ m (cfg n w wc) inp = (cfg n' w' wc', mobs w') /\
-    sim p m j c' n' wc'.
+    sim p m ok j c' n' wc'.
 Proof.
-  intros Hs. unfold ref_step. rewrite clock_rclock.
+  intros Hok Hs. unfold ref_step. rewrite clock_rclock.
   unfold mstepZ, cfg, mclock. cbn [fst snd rpack r_ctrl]. rewrite Nat2Z.id.
   replace (rwork (rpack (c, w))) with w by (destruct w; reflexivity).
   replace {| w_v := w_v w; w_cnt := w_cnt w; w_mark := w_mark w |} with w by (destruct w; reflexivity).
-  specialize (Hs (in_bits inp) w). destruct Hs as (H1 & H2 & H3).
+  specialize (Hs (in_bits inp) w Hok). destruct Hs as (H1 & H2 & H3).
   destruct (rclock p c (in_bits inp) w) as [c' w'] eqn:Er.
   destruct (run_tree (in_bits inp) (tree_at m n) n w wc wc) as [[n' w''] wc'] eqn:Em.
   cbn [fst snd] in H1, H2, H3 |- *. subst w''. exists c', n', w', wc'.
@@ -33,7 +33,7 @@ Proof.
 Qed.
 
 Lemma trace_sim_rst a l rw p : in_grammar p = true ->
-  forall ins c n w wc, sim p (lower p) (length ins) c n wc ->
+  forall ins c n w wc, sim p (lower p) (okd false false) (length ins) c n wc ->
     traceB (mstepZ_rst a l (rs_with rw) (lower p)) (cfg n w wc) ins = traceB (ref_step_rst a l p) (rpack (c, w)) ins.
 Proof.
   intros Hg. induction ins as [|i r IH]; intros c n w wc Hs; [reflexivity|].
@@ -45,7 +45,7 @@ Proof.
         with (cfg O work0 (if r_rst rw then r_def rw else wc)).
       change rinit with (rpack (AtStart, work0)).
       f_equal. apply IH. apply sim_start. exact Hg.
-    + destruct (step_sim p (lower p) (length r) c n w wc rest Hs) as (c' & n' & w' & wc' & Hr & Hm & Hs').
+    + destruct (step_sim p (lower p) _ (length r) c n w wc rest (okd_none _) Hs) as (c' & n' & w' & wc' & Hr & Hm & Hs').
       fold (cfg n w wc). rewrite Hr, Hm. unfold mobs. f_equal. apply IH. exact Hs'.
 Qed.
 
